@@ -113,6 +113,20 @@ def and_in_any_order(g):
     return doc, [("3000", "vpaddd", ["%" + r for r in order]), ("3005", "ret", [])], "and-in-any-order-operand"
 
 
+def repeated_any_order(g):
+    """`$and_any_order[a, b]` with `times: n`: every repetition chooses its own order (a b b a is two repetitions)"""
+    a, b = g.r.sample(["mov", "add", "nop", "push", "pop", "xor", "inc"], 2)
+    n = g.pick([2, 2, 3])
+    t = g.pick([n, {"min": 1, "max": n}, {"min": n, "max": n}])
+    doc = {"pattern": ["ret", {"$and_any_order": [a, b], "times": t}, "leave"]}
+    reps = [g.pick([[a, b], [b, a]]) for _ in range(n)]
+    if g.chance(0.3):
+        reps[g.int(0, n - 1)] = g.pick([[a, a], [b, b]])          # near miss: one repetition uses a child twice
+    body = [m for r in reps for m in r]
+    insts = [("5000", "ret", [])] + [("%x" % (0x5001 + i), m, ["%rax"]) for i, m in enumerate(body)] + [("5010", "leave", [])]
+    return doc, insts, "repeated-any-order"
+
+
 def run(ctx, factor):
     ctx.report.rule = ("random nestings (depth <= 3) of $or/$and/$and_any_order at instruction level, operand "
                        "level and inside $deref fields; listings realise one alternative / one ordering, then one "
@@ -121,6 +135,7 @@ def run(ctx, factor):
     rep = ctx.report
     for it in range(ctx.budget(72, 3000) * factor):
         doc, insts, tag = (sibling_any_order(ctx.g) if it % 6 in (0, 1) else and_in_any_order(ctx.g) if it % 6 == 2 else
+                           repeated_any_order(ctx.g) if it % 6 == 3 else
                            prefix_alternatives(ctx.g) if it % 3 else nested_any_order(ctx.g))
         o = patdiff.observe(ctx, doc, insts, modes=("bool", "all", "first"))
         usable = patdiff.correspondence(ctx, o)
@@ -128,7 +143,7 @@ def run(ctx, factor):
             patdiff.spec_verdict(ctx, o)
             or_split_check(ctx, o)
         rep.case(patdiff.case_of(o), usable, tags=[tag])
-        if rep.violations and factor > 1:
+        if rep.has_new() and factor > 1:
             return
     run_cases(ctx, factor, FEATS, 300, 8000, scan=True, depth=3,
               tagger=blob_tagger(["$or", "$and_any_order", "$and\"", "$deref"]), extra_check=or_split_check)
